@@ -19,6 +19,9 @@ pub const ALPN: &[u8] = b"/iroh-sync/1";
 
 mod codec;
 
+#[cfg(feature = "verif-hooks")]
+pub use codec::verif as verif_codec;
+
 /// Connect to a peer and sync a replica
 pub async fn connect_and_sync(
     endpoint: &Endpoint,
